@@ -1684,6 +1684,8 @@ pub fn families(check: &str, tier: &str) -> Vec<Box<dyn Family>> {
                         c09_variants(&t[2], c, false, ctx);
                     })),
                     sf("c09", &all_seeds(), &others[..2], Box::new(|s, c, ctx| c09_variants(&s.text, c, false, ctx))),
+                    // indentations of more than 64 and 128 columns (deep nests under wide tab widths)
+                    deep_variants("c09", &g(1), 1, 20, &[others[3], others[1]], |x, c, ctx| o2::c09(x, c, ctx)),
                     // mis-indented multi-line literals with something behind the closing quotes, at every width
                     // of a range: whether the line is wrapped again after the literal moved must not depend on
                     // line endings
@@ -1768,6 +1770,7 @@ pub fn families(check: &str, tier: &str) -> Vec<Box<dyn Family>> {
                 tf("c10deep", Texts { name: "300-nested-blocks-and-continuations".into(), items: vec![
                     format!("{}x;{}", "begin ".repeat(300), " end;".repeat(300)),
                     format!("{}x := f(a, // c\n b);{}", "begin ".repeat(270), " end;".repeat(270)),
+                    format!("{}Foo(Alpha, Beta); y := Bar(Gamma + Delta, Epsilon);{}", "begin ".repeat(265), " end;".repeat(265)),
                 ] }, &bases[..1], Box::new(|x, c, ctx| {
                     for (tw, ci) in [(255u8, 0u8), (255, 1), (2, 2)] {
                         ctx.sub_eval();
